@@ -7,6 +7,7 @@ CONSTANTS
     InstKind <- MC_KindQ
     NKeys = 2
     PropChoices <- MC_Props2
+    DupChoices <- MC_NoDups
     Kinds <- MC_AllKinds
     Forms <- MC_AllForms
     MaxFrames = 2
